@@ -855,3 +855,11 @@ def FNAME(fs: list, j: int) -> object:
 def DVAL(d: dict, k: object) -> object:
     """d[k] (total: unspecified when absent)"""
     return d[k]
+
+
+@spec
+def VALID_FLAGS(xs: list, s: object, ns: dict, o: dict, hi: int) -> list:
+    """the answers VALID gives for the first hi records, in order"""
+    if hi <= 0:
+        return []
+    return VALID_FLAGS(xs, s, ns, o, hi - 1) + [VALID(xs[hi - 1], s, ns, o)]
